@@ -16,7 +16,7 @@ from mc.report import Report
 
 LEVEL = "model_checking"
 RULE = ("BFS from every start object (class in {BaseSamples, Samples, SMCSamples} x {numpy,torch,jax} x {float32,float64} x "
-        "8 subsets of the optional fields, 4 tagged rows) over the action alphabet {int index 0/-1, 3 slices, 2 boolean masks, "
+        "8 subsets of the optional fields x parameter names stored in non-lexicographic order (b, a) [and (a, b) for numpy], 4 tagged rows) over the action alphabet {int index 0/-1, 3 slices, 2 boolean masks, "
         "2 index arrays (reversal, repeats), partition at each cut + concatenate, pickle round trip, to_dict->from_dict flat/"
         "nested} to depth 3 (quick) / 4 (thorough); abstract state = (class, namespace, dtype, row-tag tuple, field presence, "
         "evidence tag); every transition is executed on the implementation and the resulting object compared with the "
@@ -28,6 +28,7 @@ ASSUMPTIONS = [
 ]
 
 N0 = 4
+NAMES = ["b", "a"]  # storage order (column 0 is "b"): deliberately not the lexicographic order of the names
 EV_SMC = -1.25
 ERR_SMC = 0.125
 
@@ -39,11 +40,14 @@ class Model:
         self.cls, self.ns, self.dt, self.flags, self.tags, self.ev, self.row = cls, ns, dt, flags, tuple(tags), ev, row
 
     def key(self):
-        return (self.cls, self.ns, self.dt, self.flags, self.tags, self.ev, self.row)
+        return (self.cls, self.ns, self.dt, self.flags, self.tags, self.ev, self.row, tuple(NAMES))
 
 
-def start(cls, ns, dt, flags):
+def start(cls, ns, dt, flags, names=None):
     from aspire import samples as S
+
+    if names is not None:
+        NAMES[:] = list(names)
 
     xp = get_xp(ns)
     i = np.arange(N0, dtype=np.float64)
@@ -58,7 +62,7 @@ def start(cls, ns, dt, flags):
     C = getattr(S, cls)
     if cls == "SMCSamples":
         kw.update(beta=0.5, log_evidence=EV_SMC, log_evidence_error=ERR_SMC)
-    obj = C(x=xp.asarray(x), xp=xp, dtype=get_dtype(ns, dt), parameters=["a", "b"], **kw)
+    obj = C(x=xp.asarray(x), xp=xp, dtype=get_dtype(ns, dt), parameters=list(NAMES), **kw)
     if cls == "Samples":
         ev = "computed:" + ",".join(map(str, range(N0))) if all(flags) else None
     elif cls == "SMCSamples":
@@ -208,7 +212,7 @@ def compare(obj, model):
         want = (base[f] + tags) if not model.row else np.float64(base[f] + tags[0])
         if vn.shape != np.shape(want) or not np.array_equal(vn, want):
             out.append((f"field-misaligned/{f}", {"got": vn.tolist(), "want": np.asarray(want).tolist()}))
-    if obj.parameters != ["a", "b"]:
+    if list(obj.parameters) != list(NAMES):
         out.append(("parameters", obj.parameters))
     if model.cls == "Samples":
         if all(model.flags) and not model.row:
@@ -248,7 +252,7 @@ def compare(obj, model):
 
 
 def run_start(arg):
-    cls, ns, dt, flags, depth = arg
+    cls, ns, dt, flags, depth, names = arg
     r = Report()
     cache = {}
 
@@ -256,7 +260,7 @@ def run_start(arg):
         if hist in cache:
             return cache[hist]
         if not hist:
-            res = start(cls, ns, dt, flags)
+            res = start(cls, ns, dt, flags, names)
         else:
             obj, model = build(hist[:-1])
             if isinstance(obj, Failed):
@@ -281,7 +285,7 @@ def run_start(arg):
 
     def on_state(res, hist, key):
         obj, model = res
-        case = {"start": [cls, ns, dt, list(flags)], "history": [list(a) for a in hist]}
+        case = {"start": [cls, ns, dt, list(flags)], "names": list(names), "history": [list(a) for a in hist]}
         r.case(explorer.digest(case), nontrivial=len(hist) > 0)
         if isinstance(obj, Failed):
             a = obj.action
@@ -307,7 +311,7 @@ def run_start(arg):
     r.count("bisim_checked_states", res["bisim_checked"])
     if not res["fixpoint"]:
         r.count("depth_bound_reached")
-    r.sample({"start": [cls, ns, dt, list(flags)], "example_history": [["select", "idx-rev"], ["partition-concat", 1], ["pickle"]],
+    r.sample({"start": [cls, ns, dt, list(flags)], "names": list(names), "example_history": [["select", "idx-rev"], ["partition-concat", 1], ["pickle"]],
               "states": res["states"], "transitions": res["transitions"]})
     return r.dump()
 
@@ -324,7 +328,12 @@ def run(tier, seed, workers):
                         continue
                     if tier == "quick" and ns == "torch" and dt == "float32" and sum(flags) in (1, 2):
                         continue
-                    jobs.append((cls, ns, dt, flags, depth if ns != "jax" or tier == "thorough" else min(depth, 3)))
+                    d = depth if ns != "jax" or tier == "thorough" else min(depth, 3)
+                    # column names in an order that differs from their lexicographic order (dict / group layouts
+                    # are keyed by name); the sorted spelling as well where it is cheap
+                    jobs.append((cls, ns, dt, flags, d, ("b", "a")))
+                    if ns == "numpy" and (tier == "thorough" or dt == "float64"):
+                        jobs.append((cls, ns, dt, flags, d, ("a", "b")))
     jobs.sort(key=lambda j: (j[1] != "jax", j[1] != "torch"))
     for d in pmap("checks.c16", "run_start", jobs, workers):
         rep.merge(d)
@@ -340,7 +349,7 @@ def extra_coverage(rep):
 def replay(case):
     r = Report()
     cls, ns, dt, flags = case["start"]
-    obj, model = start(cls, ns, dt, tuple(flags))
+    obj, model = start(cls, ns, dt, tuple(flags), case.get("names", ["a", "b"]))
     r.case("replay")
     for a in case["history"]:
         a = tuple(a)
